@@ -188,3 +188,33 @@ Check (C11_bad_cache_boots
              (aget (replay blob (aset (s_kv st) K_RESUMP b) ops) K_RESUMP = Some b \/
               (exists l' : list (N * N),
                  aget (replay blob (aset (s_kv st) K_RESUMP b) ops) K_RESUMP = Some (enc_res l')))))).
+
+Check (C11_startup_cleans_cache
+  : forall (blob : Type) (enc_fab : N -> fabric -> blob) (dec_fab : blob -> option (N * fabric))
+         (enc_basic : basic -> blob) (dec_basic : blob -> option basic) (enc_nets : nets -> blob)
+         (dec_nets : blob -> option nets) (enc_labels : N -> blob) (dec_labels : blob -> option N)
+         (enc_binds : list (N * N) -> blob) (dec_binds : blob -> option (list (N * N)))
+         (enc_res : list (N * N) -> blob) (dec_res : blob -> option (list (N * N))) 
+         (enc_tz : N -> blob) (dec_tz : blob -> option N) (dec_tts : blob -> option (N * N))
+         (enc_icd : list (N * N) -> blob) (dec_icd : blob -> option (list (N * N)))
+         (enc_ota : list (N * N) -> blob) (dec_ota : blob -> option (list (N * N)))
+         (enc_scenes : list (N * N) -> blob) (dec_scenes : blob -> option (list (N * N)))
+         (enc_sub : N * N -> blob) (dec_sub : blob -> option (N * N)),
+       (forall (i : N) (f : fabric), dec_fab (enc_fab i f) = Some (i, f)) ->
+       (forall v : basic, dec_basic (enc_basic v) = Some v) ->
+       (forall v : nets, dec_nets (enc_nets v) = Some v) ->
+       (forall v : N, dec_labels (enc_labels v) = Some v) ->
+       (forall v : list (N * N), dec_binds (enc_binds v) = Some v) ->
+       (forall v : list (N * N), dec_res (enc_res v) = Some v) ->
+       (forall v : N, dec_tz (enc_tz v) = Some v) ->
+       (forall v : list (N * N), dec_icd (enc_icd v) = Some v) ->
+       (forall v : list (N * N), dec_ota (enc_ota v) = Some v) ->
+       (forall v : list (N * N), dec_scenes (enc_scenes v) = Some v) ->
+       forall (m : kv blob) (r : ram) (ops : list (kvop blob)),
+       startup blob dec_fab dec_basic dec_nets dec_labels dec_binds enc_res dec_res dec_tz dec_tts dec_icd
+         dec_ota dec_scenes enc_sub dec_sub m = Some (r, ops) ->
+       (forall x : N * N, In x (r_resump r) -> amem (r_fabs r) (fst x) = true) /\
+       match aget (replay blob m ops) K_RESUMP with
+       | Some b => dec_res b = Some (r_resump r)
+       | None => r_resump r = []
+       end).
